@@ -14,6 +14,7 @@ KINDS = {
     "O''":  ('ATOM  ', "O''", 'GLY', 'O'),
     'H':    ('ATOM  ', 'H', 'GLY', 'H'),
     'HETN': ('HETATM', 'N', 'LIG', 'N'),
+    'HETH': ('HETATM', 'H', 'LIG', 'H'),
     'HOH':  ('HETATM', 'O', 'HOH', 'O'),
     'WATN': ('ATOM  ', 'N', 'HOH', 'N'),
     'TER':  ('TER   ', None, None, None),
